@@ -149,7 +149,7 @@ impl MainState {
         let ghost chans = channels@;
         let ghost mj = self.config.max_joins;
         let ghost o = *old(state);
-//@before ~let mut i: usize = 0; // \[R4\]
+//@before ~let mut i__n: usize = 0; // \[R4\]
             let ghost u0 = *user;
             proof { assert(u0 == o.users@[me]); }
 //@loop ~for chname_str in channels\.iter\(\) iter=it1
@@ -157,12 +157,13 @@ impl MainState {
                     conn_same_but_stream(*conn_state, *old(conn_state)),
                     it1.seq().len() == chans.len(),
                     forall|k: int| 0 <= k < it1.seq().len() ==> it1.seq()[k] == &chans[k],
-                    i == it1.index@, joined_created@.len() == i,
+                    i__n == it1.index@, joined_created@.len() == i__n,
                     *user == u0, state.channels == o.channels, // @prop C07
-                    join_count == jcount(o, mj, me, src, chans, keys_opt, i as int),
-                    forall|j: int| 0 <= j < i ==> (#[trigger] joined_created@[j]) == (jdec(o, mj, me, src, chans, keys_opt, j), !o.channels@.contains_key(sk(chans[j]))),
-//@after ~for chname_str in channels\.iter\(\)
+                    join_count == jcount(o, mj, me, src, chans, keys_opt, i__n as int),
+                    forall|j: int| 0 <= j < i__n ==> (#[trigger] joined_created@[j]) == (jdec(o, mj, me, src, chans, keys_opt, j), !o.channels@.contains_key(sk(chans[j]))),
+//@after ~let i = i__n; i__n \+= 1;
                 proof {
+                    ax_set_vec_len_bound(o.users@[me].channels, channels);
                     assert(chname_str == &chans[i as int]);
                     lemma_jcount_bound(o, mj, me, src, chans, keys_opt, i as int);
                     ax_set_vec_len_bound(o.users@[me].channels, channels);
@@ -180,7 +181,7 @@ impl MainState {
 //@before ~// insert create channel or add user to channel
             let ghost jc = joined_created@;
             proof {
-                assert(i == chans.len());
+                assert(i__n == chans.len());
                 assert forall|c: String| !admitted(o, mj, me, src, chans, keys_opt, 0, c) by { }
             }
 //@loop ~for \(\(join, create\), chname_str\) in joined_created\.iter\(\)\.zip\(channels\.iter\(\)\) iter=it2
